@@ -26,6 +26,10 @@ Cases ==
       qa \in TermSeqs, qb \in TermSeqs, qc \in TermSeqs, ga \in Gaps, gb \in Gaps, gc \in Gaps, dn \in {"none", "c"} }
 WellFormed(x) ==
   /\ Matching(FullLog(x.qa), FullLog(x.qb)) /\ Matching(FullLog(x.qa), FullLog(x.qc)) /\ Matching(FullLog(x.qb), FullLog(x.qc))
+\* Two more conditions of reachability are applied where the cases are turned into scenarios
+\* (vlib/props.py, fam_healstates_all; found by the first thorough run, DESIGN.md 12.19): an entry of
+\* term T exists only if at least two of the three nodes have reached T (T had a leader), and a
+\* node whose current term has a leader has voted for it (votes are not enumerated here).
 
 KindNo(k) == IF k = "cfg" THEN 2 ELSE IF k = "noop" THEN 0 ELSE 1
 Wire(es) == [j \in 1..Len(es) |-> [i |-> j, t |-> es[j].t, k |-> KindNo(es[j].k), v |-> ""]]
